@@ -538,25 +538,46 @@ func gxString(r *rng, o gxOpts) *GX {
 		// runes (negative, surrogates, beyond MaxRune): the string must be valid UTF-8 all the same
 		var eg *rapid.Generator[rune]
 		var ed string
+		var member func(x rune) bool
 		switch r.intn(4) {
 		case 0:
 			eg, ed = rapid.Int32Range(-200, 'z'), "Int32Range(-200,'z')"
+			member = func(x rune) bool { return x >= 0 && x <= 'z' }
 		case 1:
 			eg, ed = rapid.Int32(), "Int32()"
+			member = func(x rune) bool { return true }
 		case 2:
 			eg, ed = rapid.SampledFrom([]rune{'a', -1, 0xD800, 0x110000, 'é', -128}), "SampledFrom('a',-1,0xD800,0x110000,'é',-128)"
+			member = func(x rune) bool { return x == 'a' || x == 'é' }
 		default:
 			eg, ed = rapid.Int32Range(0xD700, 0xE100), "Int32Range(0xD700,0xE100)"
+			member = func(x rune) bool { return (x >= 0xD700 && x < 0xD800) || (x >= 0xE000 && x <= 0xE100) }
 		}
 		maxR := r.between(1, 6)
-		desc := fmt.Sprintf("StringOfN(%s, 0, %d, -1)", ed, maxR)
-		return &GX{Desc: desc, Gen: rapid.StringOfN(eg, 0, maxR, -1).AsAny(), Cmp: true, Rej: true, Check: func(v any) string {
+		maxLen := -1
+		switch r.intn(3) {
+		case 0:
+			// a byte limit as well: values that cannot be encoded must not count against it nor slip past it
+			maxLen = maxR + r.intn(3)
+		case 1:
+			maxLen, maxR = r.intn(5), -1
+		}
+		desc := fmt.Sprintf("StringOfN(%s, 0, %d, %d)", ed, maxR, maxLen)
+		return &GX{Desc: desc, Gen: rapid.StringOfN(eg, 0, maxR, maxLen).AsAny(), Cmp: true, Rej: true, Check: func(v any) string {
 			s, ok := v.(string)
 			if !ok {
 				return fmt.Sprintf("%s returned %T", desc, v)
 			}
 			if !utf8.ValidString(s) {
 				return fmt.Sprintf("%s returned invalid UTF-8 %q", desc, s)
+			}
+			for _, x := range s {
+				if !member(x) {
+					return fmt.Sprintf("%s returned %q containing %U, which the element generator cannot produce as a rune", desc, s, x)
+				}
+			}
+			if m := checkLen(desc+" byte length", len(s), -1, maxLen); m != "" {
+				return m
 			}
 			return checkLen(desc+" rune count", utf8.RuneCountInString(s), 0, maxR)
 		}}
@@ -734,7 +755,15 @@ func gxSampled(r *rng, o gxOpts) *GX {
 			src, orig = nil, nil
 		}
 		desc := fmt.Sprintf("Permutation(%v)", orig)
-		return &GX{Desc: desc, Gen: rapid.Permutation(src).AsAny(), post: unmodified, Check: func(v any) string {
+		pg := rapid.Permutation(src).AsAny()
+		if r.chance(1, 2) {
+			// drawn from directly (typed), not through AsAny: the generator's own label is then computed by rapid itself
+			// rather than inside a fmt verb (which would swallow a panic of String())
+			typed := rapid.Permutation(src)
+			pg = rapid.Custom(func(t *rapid.T) any { return typed.Draw(t, "perm") })
+			desc = fmt.Sprintf("Custom{Permutation(%v).Draw}", orig)
+		}
+		return &GX{Desc: desc, Gen: pg, post: unmodified, Check: func(v any) string {
 			x, ok := v.([]int)
 			if !ok {
 				return fmt.Sprintf("%s returned %T", desc, v)
